@@ -77,3 +77,8 @@ EDITS += [
      "old": "        sids, times = list(zip(*series_at_head))",
      "new": "        sids = [series_id for series_id, t in series_at_head if series_id != reference_index]\n        times = [t for series_id, t in series_at_head]"},
 ]
+
+# round 8 (hardening that is not)
+EDITS += [
+    {'id': 'r8-truncated-svd-solve', 'expect': 'fire', 'rule': 'C05.O2', 'file': 'spowtd/fit_offsets.py', 'old': '    offsets = linalg_mod.solve(ATA, ATd)  # pylint: disable=E1101', 'new': '    offsets = linalg_mod.lstsq(ATA, ATd, rcond=1e-7)[0]'},
+]
